@@ -73,6 +73,11 @@ CHECKS.update({
             "Every valid design of the grid (random designs over small alphabets of all parameters, every visit table with <= 3 rows plus hand tables) is simulated with every catalogue model and feature list under a draw budget / alarm: individuals, rounded unique increasing ages, finite values in [0,1], one reported parameter row per individual, columns holding the named feature's trajectory for the reported parameters; every invalid design must be refused with LeaspyAlgoInputError before any random draw.",
             "Design alphabets are small; validity is the documented requirement set; NaN / inf / bool parameter values and unknown feature names are outside the space."),
 })
+CHECKS.update({
+    "C13": ("model_checking", "explicit-state BFS over sequences of public API calls (fit / estimate / personalize x 3 / simulate / save+load) on a real model object, deduplicated on a canonical key of what the object holds, with deep snapshots around every call and a differential oracle against a history-free model",
+            "Every call sequence up to the depth bound is executed on real model objects (states = canonical keys of parameters + data / latent values held by model.state); around every call the model, the caller's table / Data / settings are deep-snapshotted; non-fit calls must change nothing and leave nothing behind, a repeated call must repeat its answer, and the result of a call after any history must be bit-identical to the same call on a model holding the same parameters and no history (optimiser start point included).",
+            "Depth 3 (quick) / 4 (thorough); tiny fits and personalizations; mixture model not covered; where a saved file is not bit-faithful (C12 territory) the reference gets the exact parameter tensors."),
+})
 NOT_APPLICABLE = {}
 
 def main():
